@@ -71,6 +71,26 @@ Proof.
   rewrite !mixj_obj in H. cbn [as_dict] in H. injection H as H. exact H.
 Qed.
 
+(** overlaying a dictionary with itself changes nothing (a caller who supplies exactly the pre-set
+    options, or pre-set options equal to the caller's, is evaluated under those very options) *)
+Lemma mixj_self : forall v, wf_json v = true -> mixj v v = v.
+Proof.
+  induction v using json_ind'; intros Hw; try reflexivity.
+  rewrite mixj_obj. cbn [as_dict]. f_equal. unfold mix.
+  destruct (wf_json_obj _ Hw) as [Hnd Hsub].
+  apply mix_loop_fixed. intros k v HIn.
+  rewrite (In_dget_nodup _ _ _ Hnd HIn). f_equal.
+  unfold mix_entry. destruct v; try reflexivity.
+  rewrite (In_dget_nodup _ _ _ Hnd HIn). symmetry.
+  rewrite Forall_forall in H. apply (H _ HIn). apply (Hsub _ _ HIn).
+Qed.
+
+Theorem mix_self o : wf_dict o = true -> mix o o = o.
+Proof.
+  unfold wf_dict. intros Ho. pose proof (mixj_self (JObj o) Ho) as H.
+  rewrite mixj_obj in H. cbn [as_dict] in H. injection H as H. exact H.
+Qed.
+
 (** the same at lookup level, for any key: what the twice-overlaid dictionary answers *)
 Corollary lookup_mix_idem k o p :
   wf_dict p = true -> lookup k (JObj (mix (mix o p) p)) = lookup k (JObj (mix o p)).
